@@ -295,6 +295,49 @@ def _generic_sink_events(sink) -> list:
     return out
 
 
+def iter_grouped_stepped(integration: str, data_or_file, frame_metadata, how: str, **kw):
+    """Like iter_grouped, but the consumer takes every sink in a context of its own: 'context' = each next() inside a
+    fresh contextvars.copy_context().run(...), 'thread' = each next() on a new thread (asyncio tasks, executor workers
+    and callback-driven consumers all do one or the other).  The metadata is read in the same context as the next()."""
+    import contextvars
+    import threading
+    inp = io.BytesIO(data_or_file) if isinstance(data_or_file, (bytes, bytearray)) else data_or_file
+    if integration == "generic":
+        it = iter(gparse.parse_jelly_grouped(inp, frame_metadata=frame_metadata, **kw))
+    else:
+        it = iter(rparse.parse_jelly_grouped(inp, frame_metadata=frame_metadata, **_rdflib_factories(kw)))
+    done = object()
+
+    def step():
+        sink = next(it, done)
+        return sink, (None if sink is done else dict(frame_metadata.get()))
+    while True:
+        if how == "context":
+            sink, meta = contextvars.copy_context().run(step)
+        else:
+            box: list = []
+
+            def target():
+                try:
+                    box.append(step())
+                except BaseException as e:  # noqa: BLE001
+                    box.append(e)
+            t = threading.Thread(target=target)
+            t.start()
+            t.join()
+            if isinstance(box[0], BaseException):
+                raise box[0]
+            sink, meta = box[0]
+        if sink is done:
+            return
+        if integration == "generic":
+            evs = _generic_sink_events(sink)
+            yield ([e for e in evs if e[0] == "stmt"], [e for e in evs if e[0] == "ns"], meta)
+        else:
+            sts = [("stmt", s) for s in T.rdflib_store_statements(sink)]
+            yield (sts, [("ns", p, str(u)) for p, u in sink.namespaces()], meta)
+
+
 def iter_grouped(integration: str, data_or_file, frame_metadata=None, **kw):
     """Generator, one item per sink as it is delivered: (statements, namespaces, metadata seen then)."""
     inp = io.BytesIO(data_or_file) if isinstance(data_or_file, (bytes, bytearray)) else data_or_file
